@@ -17,13 +17,16 @@ Review recorded here:
     before the call.
   * candidates matching DROP are not copied (harness artefacts must be fixed
     in the check, not listed).
-  * HANGS are constructs that never return (observed with the 20 s watchdog);
-    they cannot be re-run on every check run, so they carry "witness": null
-    and the generator avoids exactly these constructs (internal/c09/skiptable.go).
+  * HANGS are constructs that never return (first observed with the 20 s
+    watchdog). The generator avoids exactly these constructs
+    (internal/c09/skiptable.go); their witnesses are probe cases that run the
+    call in a process of its own for 4 s, so each is re-observed on every run.
+  * FIXED: entries of the previous findings file that no longer reproduce
+    because of a named commit in /repo are kept with status "fixed: ...".
 """
 import json, glob, sys, re
 
-DROP = [r'^harness-', r'^hang:', r'^canary-after', r' fmt dirs=']  # 'fmt dirs=' is the signature shape of an earlier version of the check
+DROP = [r'^harness-', r'^hang:', r'^canary-after', r' fmt dirs=', r'^hang-or-oom ', r'^probe-died ']  # 'fmt dirs=' is the signature shape of an earlier version of the check
 
 ROOT = [
     (r'^fault=index\[len0\] evaluator arg=\(values\)$',
@@ -43,18 +46,37 @@ ROOT = [
     (r'^crash:', 'the process died (Go fatal error / unrecovered panic)'),
 ]
 
+# Findings that never return: re-observed on every run through a probe witness
+# (the inner call runs in a process of its own for 4 s, see execProbe in c09.go).
 HANGS = [
-    {"signature": "hang-or-oom fn=common-lisp:expt integer power 2^62",
-     "what": "(expt 3 4611686018427387904) never returns and (expt 4611686018427387904 4611686018427387904) dies with fatal error: out of memory: since the exact-power repair the integer power is computed without any bound on the size of the result (a result of that size cannot exist; a condition is expected). Avoided in generation: expt with 2^62 as second argument (skiptable.go: expt-huge-exponent)."},
-    {"signature": "hang fmt ~mincol,0A / ~mincol,0S (column increment 0)",
-     "what": "(format nil \"~5,0A\" 1) never returns: the padding loop of ~A/~S adds colinc pad characters until mincol is reached and colinc = 0 adds none (for len(out)+len(pad) < mincol { for i := colinc; 0 < i; i-- ...). ~mincol,0< and ~n,0T with the same parameter end in integer divide by zero (listed separately). Avoided in generation: ~A/~S whose second parameter is 0, # or v with 0 among the arguments (format.go: fmtRisk, fmt-colinc-zero)."},
-    {"signature": "hang fn=common-lisp:do|do* end-test not a list",
-     "what": "(do () (t)) never returns: setupDo only installs an end-test form that is a list ((do () ((null x)) ...)); a symbol or literal end-test such as t, done or 1 is silently dropped, test stays nil and the loop runs for ever (same in do*). Hangs the interpreter, not interruptible. Avoided in generation: do/do* with >= 2 arguments in quoted mode, and in raw mode when the 2nd argument is a list (skiptable.go: do-nonlist-end-test)."},
-    {"signature": "hang fn=common-lisp:read-line args=(closedstream)",
+    {"signature": "hang-or-oom fn=common-lisp:do raw args=(list,list)",
+     "witness": {"k": "probe", "sub": "fn", "fn": "common-lisp:do", "raw": True, "args": ["list1", "list3"]},
+     "what": "(do () (t)) and (do (a) (1 2 3)) never return: setupDo only installs an end-test form that is a list ((do () ((null x)) ...)); a symbol or literal end-test such as t, done or 1 is silently dropped, test stays nil and the loop runs for ever. Hangs the interpreter, not interruptible. Avoided in generation: do with >= 2 arguments in quoted mode, and in raw mode when the 2nd argument is a list (skiptable.go: do-nonlist-end-test)."},
+    {"signature": "hang-or-oom fn=common-lisp:do<star> raw args=(list,list)",
+     "witness": {"k": "probe", "sub": "fn", "fn": "common-lisp:do*", "raw": True, "args": ["list1", "list3"]},
+     "what": "(do* () (t)) never returns, same cause as do (shared setupDo drops an end-test form that is not a list). Avoided in generation like do (skiptable.go: do-nonlist-end-test)."},
+    {"signature": "hang-or-oom fn=common-lisp:read-line args=(closedstream)",
+     "witness": {"k": "probe", "sub": "fn", "fn": "common-lisp:read-line", "args": ["closed-stream"]},
      "what": "(let ((s (make-string-input-stream \"x\"))) (close s) (read-line s)) never returns (spins in Go, no condition). Avoided in generation: read-line with a closed string stream as first argument (skiptable.go: read-line-closed-stream)."},
-    {"signature": "hang-or-oom fmt huge column/count parameter",
-     "what": "format tries to produce as many characters as a count/mincol/column parameter says, without bound: (format nil \"~4611686018427387904%\") or (format nil \"~vA\" 4611686018427387904 1) allocates until the process dies with fatal error: out of memory (directives ~% ~& ~| ~~ ~A ~S ~D ~B ~O ~X ~T ~$ ~F ~E ~G ~<). Avoided in generation: those directives with a literal parameter of 7+ digits, or a v parameter when 2^62/2^70/-2^63 is among the arguments (format.go: fmtRisk, fmt-huge-parameter)."},
+    {"signature": "hang-or-oom fmt ctl=\"~4611686018427387904%\" args=()",
+     "witness": {"k": "probe", "sub": "fmt", "ctl": "~4611686018427387904%"},
+     "what": "format tries to produce as many characters as a count/mincol/column parameter says, without bound: (format nil \"~4611686018427387904%\") or (format nil \"~vA\" 4611686018427387904 1) allocates until the process dies with fatal error: out of memory (directives ~% ~& ~| ~~ ~A ~S ~D ~B ~O ~X ~T ~$ ~F ~E ~G ~< and ~* followed by ~#). Avoided in generation: those directives with a literal parameter of 7+ digits, or a v parameter when 2^62/2^70/-2^63 is among the arguments (format.go: fmtRisk, fmt-huge-parameter)."},
+    {"signature": "hang-or-oom fmt ctl=\"~5,0A\" args=(posint)",
+     "witness": {"k": "probe", "sub": "fmt", "ctl": "~5,0A", "args": ["one"]},
+     "what": "(format nil \"~5,0A\" 1) never returns: the padding loop of ~A/~S adds colinc pad characters until mincol is reached and colinc = 0 adds none. ~mincol,0< and ~n,0T with the same parameter end in integer divide by zero (listed separately). Avoided in generation: ~A/~S whose second parameter is 0, # or v with 0 among the arguments (format.go: fmtRisk, fmt-colinc-zero)."},
+    {"signature": "hang-or-oom fn=common-lisp:expt args=(posint,hugefix)",
+     "witness": {"k": "probe", "sub": "fn", "fn": "common-lisp:expt", "args": ["three", "big62"]},
+     "what": "(expt 3 4611686018427387904) never returns and (expt 4611686018427387904 4611686018427387904) dies with fatal error: out of memory: since the exact-power repair c07d997 the integer power is computed without any bound on the size of the result (a condition is expected). Avoided in generation: expt with 2^62 as second argument (skiptable.go: expt-huge-exponent). Proposed repair: /tmp/fixes/C09-expt-huge-exponent.diff."},
 ]
+
+# Repairs committed in /repo: entries of the previous findings file that no
+# longer reproduce and belong to one of these are kept as "fixed".
+FIXED = [
+    (r'fn=common-lisp:(case|ecase|defun|defmacro|shiftf|rotatef)( raw)?$', 'd874908', 'a special form called without arguments indexed args[0]'),
+    (r'^fault=nil-deref fn=(common-lisp:(package-nicknames|export|unexport)|gi:(lock-package|unlock-package|package-locked-p))$', '3b1c274', 'an unknown package designator was dereferenced as a nil *Package'),
+    (r'^fault=type-assertion\[not_slip.Octets\] fn=gi:', '2060702', 'a nil argument failed the unchecked slip.Octets type assertion'),
+]
+PREVIOUS = '/tmp/c09probe/findings-prev.json'
 
 
 def describe(sig, cand_what):
@@ -107,7 +129,23 @@ def main():
             example = 'witness case ' + json.dumps(e['witness'])
         out.append({'property': 'C09', 'signature': sig, 'what': (root + '; e.g. ' + example)[:600], 'status': 'open', 'witness': e['witness']})
     for h in HANGS:
-        out.append({'property': 'C09', 'signature': h['signature'], 'what': h['what'], 'status': 'open', 'witness': None})
+        out.append({'property': 'C09', 'signature': h['signature'], 'what': h['what'], 'status': 'open', 'witness': h['witness']})
+    have = {e['signature'] for e in out}
+    import os
+    if os.path.exists(PREVIOUS):
+        for e in json.load(open(PREVIOUS)):
+            sig = e['signature']
+            if sig in have:
+                continue
+            if e['status'].startswith('fixed:'):
+                out.append(e)
+                continue
+            for pat, commit, why in FIXED:
+                if re.search(pat, sig):
+                    out.append({'property': 'C09', 'signature': sig, 'what': e['what'], 'status': 'fixed: property=C09 %s %s' % (commit, why)})
+                    break
+            else:
+                print('no longer reproduces, deleted:', sig, file=sys.stderr)
     print(len(files), 'files,', len(seen), 'signatures ->', len(out), 'entries', file=sys.stderr)
     json.dump(out, sys.stdout, indent=1)
     print()
